@@ -121,6 +121,10 @@ func vxConcreteStr(s string) string {
 	return s
 }
 
+func vxShape(s string, structural string) string {
+	return s
+}
+
 func vxAssume(c bool) {
 	if !c { fmt.Println("VXASSUME-FAILED"); os.Exit(3) }
 }
@@ -221,6 +225,10 @@ func vxTraceMode(on bool) {
 	
 }
 
+func vxTraceStatSeq(seq string) {
+	panic("vxTraceStatSeq: environment-model function, not available in native replay")
+}
+
 func vxTraceStatFork(on bool) {
 	
 }
@@ -247,6 +255,10 @@ func vxOps() int {
 
 func vxFSPut(path string, kind int, id int) {
 	panic("vxFSPut: environment-model function, not available in native replay")
+}
+
+func vxFSMkdirAll(path string) {
+	panic("vxFSMkdirAll: environment-model function, not available in native replay")
 }
 
 func vxFSPutData(path string, data string) {
